@@ -98,12 +98,17 @@ def gen_compiled(rng):
             goals += binding_goal(rng, tv, targets)
         c['bound_after_assert'] = 1
     nuse = rng.choice([0, 1, 2, 3])
-    for _ in range(nuse):
+    for ui in range(nuse):
         pat = ('c', 'p', tuple(pattern(rng, a, uv) for a in fact[2]))
+        if ui == 0 and rng.random() < 0.3:
+            # an earlier use whose answers escape (collected by findall) before later uses bind the fact's variables
+            fv2 = [V('F%d' % i) for i in range(len(fact[2]))]
+            goals.append(('call', C('findall', C('got', *fv2), C('p', *fv2), V('Bag'))))
+            c['findall_before_later_uses'] = 1
         goals.append(('call', pat))
     if nuse:
         c['uses_in_same_clause'] = nuse
-    hv = tv + uv + [V('G')]
+    hv = tv + uv + [V('G'), V('Bag')]
     head = C('t', *hv)
     hist = []
     if rng.random() < 0.3:
